@@ -31,7 +31,9 @@ func run(c *vlib.Ctx) error {
 	switch c.Prop {
 	case "C16":
 		return runLinks(c)
-	case "C08":
+	case "C08", "C01":
+		// C01 attaches the external-edit scenarios as an extra run: the just-in-time check is what keeps
+		// content modified after the scan from being deleted or overwritten by a two-way-safe cycle
 		return runEdits(c)
 	case "C09":
 		return runFaults(c)
@@ -52,7 +54,7 @@ func replay(c *vlib.Ctx) error {
 	switch c.Prop {
 	case "C16":
 		return replayLinks(c, begin)
-	case "C08", "C09", "C03", "C18":
+	case "C08", "C09", "C03", "C18", "C01":
 		return replayTransition(c, begin)
 	}
 	return fmt.Errorf("driver transition does not know property %q", c.Prop)
